@@ -252,13 +252,18 @@ class Run:
                 secret = w.trace.secret_of(h.keys) if h.keys is not None else None
                 if secret is None or h.dh_secret is None:
                     self.fail("K2", "derivation", f"hop {k + 1} was accepted without traceable session keys")
+                from ipv8_rust_tunnels import generate_session_keys as ref_kdf
                 xB = h.dh_secret.diffie_hellman(node.key.get_crypt_pk())
                 ok = False
                 for Y in self.wire_Y:
                     if len(Y) != 32:
                         continue
                     try:
-                        if h.dh_secret.diffie_hellman(Y) + xB == secret:
+                        # the key MATERIAL the originator holds must be the expansion of x.Y || x.B
+                        ref = ref_kdf(h.dh_secret.diffie_hellman(Y) + xB)
+                        if (bytes(ref.key_forward), bytes(ref.key_backward), bytes(ref.salt_forward),
+                                bytes(ref.salt_backward)) == (bytes(h.keys.key_forward), bytes(h.keys.key_backward),
+                                                              bytes(h.keys.salt_forward), bytes(h.keys.salt_backward)):
                             ok = True
                             break
                     except Exception:  # noqa: BLE001
